@@ -28,6 +28,49 @@ theorem ht_new_inv (size resize : Nat) (hr : resize ≤ 2) :
   have hu : (empty N resize : Ht2 α).used = 0 := by simp [used]
   exact ⟨empty_inv N resize hpos, by rw [hu]; exact Nat.zero_le _, fun _ => by rw [hu]; simp [LYHT_ENLARGE_PERCENTAGE], hr⟩
 
+/-- non-vacuity (audit): a requested size below `LYHT_MIN_SIZE` (raised to 8) with shrinking enabled from the start -/
+example : Inv2 (Ht2.new 3 2 : Ht2 Nat) ∧ Load (Ht2.new 3 2 : Ht2 Nat) ∧ (Ht2.new 3 2 : Ht2 Nat).size = 8 :=
+  ⟨(ht_new_inv 3 2 (by decide)).1, (ht_new_inv 3 2 (by decide)).2, by decide⟩
+
+/-! ### audit support: populated witness tables
+
+`Inv2` / `Load` / `Rel` quantify over all bucket indices, so they are not `decide`-able; for the witness tables they are
+obtained from the refinement lemma `Ht2.run_spec` applied to the history that builds the table.  Used only by the
+`non-vacuity (audit)` examples. -/
+
+/-- the plain keyed callback: values are equal when they are the same number (any `mod`) -/
+def auVe : VEq Nat := fun _ a b => a == b
+
+theorem auVe_equiv : IsEquiv auVe (fun a b => a == b) :=
+  ⟨fun _ _ _ => rfl, fun a => by simp, fun a b h => by simp only [beq_iff_eq] at *; omega,
+   fun a b c h1 h2 => by simp only [beq_iff_eq] at *; omega⟩
+
+theorem auNew_rel (ve : VEq Nat) (size : Nat) : Rel ve (Ht2.new size 1 : Ht2 Nat) [] := by
+  obtain ⟨h1, h2⟩ := ht_new_inv (α := Nat) size 1 (by decide)
+  refine ⟨h1, h2, ?_, ?_, ?_⟩
+  · unfold Ht2.new; simp [empty]
+  · unfold Ht2.new; rw [empty_toList]
+  · unfold Distinct; exact List.Pairwise.nil
+
+/-- five records in a resizable table of 8, ALL in bucket 3 (hashes 3, 3, 11, 19, 3: equal-hash and equal-bucket
+    collisions); shrinking got armed at the 4th record (`resize = 2`); the next insertion reaches 75 % and enlarges -/
+def auH : Ht2 Nat := ((Ht2.new 8 1 : Ht2 Nat).run auVe [.ins 1 3, .ins 2 3, .ins 3 11, .ins 4 19, .ins 5 3]).2
+
+theorem auH_rel : Rel auVe auH (LyHt.specRun (fun a b => a == b) [] [.ins 1 3, .ins 2 3, .ins 3 11, .ins 4 19, .ins 5 3]).2 :=
+  (Ht2.run_spec auVe_equiv _ (auNew_rel auVe 8)).2
+
+example : auH.size = 8 ∧ auH.resize = 2 ∧ auH.bucket 3 = [(3, 1), (3, 2), (11, 3), (19, 4), (3, 5)] ∧ auH.used = 5 := by decide
+
+/-- four records left in a table that was enlarged to 16 (six inserts, two removes): the next remove (18 % < 25 %) shrinks -/
+def auH16 : Ht2 Nat :=
+  ((Ht2.new 8 1 : Ht2 Nat).run auVe [.ins 1 3, .ins 2 3, .ins 3 11, .ins 4 19, .ins 5 3, .ins 6 35, .rem 2 3, .rem 5 3]).2
+
+theorem auH16_rel : Rel auVe auH16
+    (LyHt.specRun (fun a b => a == b) [] [.ins 1 3, .ins 2 3, .ins 3 11, .ins 4 19, .ins 5 3, .ins 6 35, .rem 2 3, .rem 5 3]).2 :=
+  (Ht2.run_spec auVe_equiv _ (auNew_rel auVe 8)).2
+
+example : auH16.size = 16 ∧ auH16.resize = 2 ∧ auH16.toList = [(3, 1), (19, 4), (35, 6), (11, 3)] := by decide
+
 /-- Every operation keeps the representation invariant — bucket array of `size` entries, every record chained in the
 bucket `hash & (size-1)`, `used ≤ size`, load below the enlarge threshold while resizing is enabled — whatever the
 equality callbacks do (also for unchecked inserts of duplicates and inconsistent callbacks). -/
@@ -40,6 +83,22 @@ theorem ht_inv_preserved (h : Ht2 α) (hi : Inv2 h) (hl : Load h) (ve : VEq α) 
 
 example : Inv2 ((Ht2.new 8 1 : Ht2 Nat).insert (fun _ a b => a == b) none true true 5 77).2 :=
   (ht_inv_preserved _ (ht_new_inv 8 1 (by decide)).1 (ht_new_inv 8 1 (by decide)).2 _ none true true 5 77).1.1
+
+/-- non-vacuity (audit): at the populated table `auH` (5 of 8, one long chain) the 6th insertion enlarges to 16; at `auH16`
+    a remove shrinks back to 8 — invariant and load bound hold after both -/
+example : (Inv2 (auH.insert auVe none true true 6 35).2 ∧ Load (auH.insert auVe none true true 6 35).2) ∧
+    (auH.insert auVe none true true 6 35).2.size = 16 :=
+  ⟨(ht_inv_preserved auH auH_rel.inv auH_rel.load auVe none true true 6 35).1, by decide⟩
+
+example : (Inv2 (auH16.remove auVe none 4 19).2 ∧ Load (auH16.remove auVe none 4 19).2) ∧
+    (auH16.remove auVe none 4 19).2.size = 8 ∧ (auH16.remove auVe none 4 19).2.used = 3 :=
+  ⟨(ht_inv_preserved auH16 auH16_rel.inv auH16_rel.load auVe none true true 4 19).2, by decide, by decide⟩
+
+/-- non-vacuity (audit): "whatever the callbacks do" — an inconsistent callback (never equal when checking, always equal
+    when searching) and an unchecked duplicate insert -/
+example : Inv2 (auH.insert (fun m _ _ => !m) (some (fun _ _ _ => true)) false true 1 3).2 ∧
+    Load (auH.insert (fun m _ _ => !m) (some (fun _ _ _ => true)) false true 1 3).2 :=
+  (ht_inv_preserved auH auH_rel.inv auH_rel.load _ _ false true 1 3).1
 
 /-- Memory-safety obligation of `_lyht_insert_with_resize_cb` (`assert(rec_idx < ht->size)` is compiled out): a table
 with resizing enabled always has a free record — `insert` never reports `full`. -/
@@ -62,6 +121,10 @@ theorem ht_resizable_never_full (h : Ht2 α) (hi : Inv2 h) (hl : Load h) (hrs : 
     cases hf : (h.bucket hash).find? (hit ve true v hash) with
     | none => exact absurd (fun _ => hf) hnf
     | some r => unfold Ht2.insert; simp only [if_true]; rw [hf]; simp
+
+/-- non-vacuity (audit): the hypotheses hold at `auH`, the last state before an enlargement (5 of 8 records, `resize = 2`) -/
+example : (auH.insert auVe none false false 9 0).1 ≠ .full :=
+  ht_resizable_never_full auH auH_rel.inv auH_rel.load (by decide) auVe none false false 9 0
 
 /-- …while a fixed-size table (`resize = 0`) filled to `size` records does report it (the C code would write out of
 bounds there; callers size such tables with `lyht_get_fixed_size`). -/
@@ -103,6 +166,27 @@ theorem nested_insert_never_resizes (h : Ht2 α) (ve : VEq α) (check : Bool) (p
       refine div_lt_of (by omega) ?_
       simp only [LYHT_ENLARGE_PERCENTAGE, used]; omega
 
+/-- non-vacuity (audit): enlargement of `auH` with its 6th record linked (6 of 8): after 4 of the 6 re-insertions into the
+    table of 16 the next one sees (4 + 1) * 100 / 16 = 31 % -/
+example : (((auH.link 6 35).toList.take 4).foldl (reins auVe true) (empty 16 2)).used = 4 ∧
+    ((((auH.link 6 35).toList.take 4).foldl (reins auVe true) (empty 16 2)).used + 1) * 100 / 16 < LYHT_ENLARGE_PERCENTAGE := by
+  refine ⟨by decide, ?_⟩
+  have := (nested_insert_never_resizes (auH.link 6 35) auVe true ((auH.link 6 35).toList.take 4) ((auH.link 6 35).toList.drop 4)
+    (List.take_append_drop 4 _).symm (by decide)).1 (by decide)
+  rcases this with h | h
+  · exact h
+  · exact absurd h (by decide)
+
+/-- non-vacuity (audit): the shrink half — `auH16` after the remove of one record (3 of 16 = 18 % < 25 %, 16 > 8), two of the
+    three records re-inserted into the table of 8 -/
+example : ((([(3, 1), (35, 6)] : List (UInt32 × Nat)).foldl (reins auVe true) (empty 8 2)).used + 1) * 100 / 8 <
+    LYHT_ENLARGE_PERCENTAGE := by
+  have := (nested_insert_never_resizes (⟨16, 2, [[], [], [], [(3, 1), (35, 6)], [], [], [], [], [], [], [], [(11, 3)], [], [], [], []]⟩ : Ht2 Nat)
+    auVe true [(3, 1), (35, 6)] [(11, 3)] rfl (by decide)).2 (by decide) (by decide)
+  rcases this with h | h
+  · exact h
+  · exact absurd h (by decide)
+
 /-! ## hash table: operations against the multiset of records (L3) -/
 
 /-- `find` succeeds iff a matching record is present anywhere in the table (only the bucket `hash & (size-1)` is
@@ -131,6 +215,14 @@ theorem ht_find_iff (h : Ht2 α) (hi : Inv2 h) (ve : VEq α) (v : α) (hash : UI
 example : (((Ht2.new 8 1 : Ht2 Nat).insert (fun _ a b => a == b) none true true 5 77).2.find (fun _ a b => a == b) 5 77) = some 5 := by
   decide
 
+/-- non-vacuity (audit): at `auH` — value 4 (hash 19) is found behind three colliding records of the same bucket; value 4 under
+    the colliding hash 3 is absent, and so says the full scan -/
+example : (19, 4) ∈ auH.toList ∧ auVe false 4 4 = true :=
+  (ht_find_iff auH auH_rel.inv auVe 4 19).2 4 (by decide)
+
+example : ∀ r ∈ auH.toList, ¬ (r.1 = 3 ∧ auVe false 4 r.2 = true) :=
+  (ht_find_iff auH auH_rel.inv auVe 4 3).1.1 (by decide)
+
 /-- Checked insert of a value that is present (same hash, callback says equal in `mod = 1`): `LY_EEXIST`, the equal stored
 value is returned, the table is unchanged. -/
 theorem ht_insert_exists (h : Ht2 α) (hi : Inv2 h) (ve : VEq α) (rve : Option (VEq α)) (wm : Bool) (v : α) (hash : UInt32)
@@ -146,6 +238,10 @@ theorem ht_insert_exists (h : Ht2 α) (hi : Inv2 h) (ve : VEq α) (rve : Option 
     refine ⟨r.2, ?_, by rw [← h2]; exact h1, h3⟩
     unfold Ht2.insert; simp only [if_true]; rw [hf]
 
+/-- non-vacuity (audit): hypothesis `hex` at `auH`: value 2 under hash 3 is stored (second of the chain) -/
+example : ∃ m, auH.insert auVe none true true 2 3 = (.exist m, auH) ∧ (3, m) ∈ auH.toList ∧ auVe true 2 m = true :=
+  ht_insert_exists auH auH_rel.inv auVe none true 2 3 ⟨(3, 2), by decide, rfl, by decide⟩
+
 /-- Insert of an absent value (or any unchecked insert) into a table with a free record adds exactly `(hash, v)`;
 if the insertion enlarges the table nothing else changes — provided the re-insertion check cannot mistake two records for
 each other (`Distinct` for the callback in force during the resize; vacuous for unchecked inserts). -/
@@ -160,6 +256,21 @@ theorem ht_insert_adds (h : Ht2 α) (hi : Inv2 h) (ve : VEq α) (rve : Option (V
   have := hab hc r hr
   unfold hit
   cases h1 : (r.1 == hash) <;> cases h2 : ve true v r.2 <;> simp_all
+
+/-- non-vacuity (audit): checked insert of the absent value 6 (hash 35, same bucket as all five stored records) into `auH`:
+    `hab`, `hfree`, `hd` hold, the insertion enlarges the table to 16 and exactly `(35, 6)` is added -/
+example : (auH.insert auVe none true true 6 35).2.toList ~ (35, 6) :: auH.toList ∧
+    (auH.insert auVe none true true 6 35).2.size = 16 ∧ (auH.insert auVe none true true 6 35).1 = .ok (some 6) :=
+  ⟨ht_insert_adds auH auH_rel.inv auVe none true true 6 35 (fun _ => by decide) (by decide) (fun _ => by unfold Distinct; decide),
+   by decide, by decide⟩
+
+/-- non-vacuity (audit): `hd` is a real restriction and it is needed — with a resize callback that calls everything equal,
+    `Distinct` fails, and the enlarging insertion into `auH` keeps four records of six (one of the three with hash 3) -/
+example : ¬ Distinct (fun _ _ _ => true) ((35, 6) :: auH.toList) ∧
+    (auH.insert auVe (some (fun _ _ _ => true)) true true 6 35).2.toList.length = 4 := by
+  constructor
+  · unfold Distinct; decide
+  · decide
 
 /-- `remove`: `LY_ENOTFOUND` and no change if no record matches; otherwise exactly one matching record (the first of
 its chain) disappears and everything else stays, also across the shrink. -/
@@ -186,12 +297,31 @@ theorem ht_remove_spec (h : Ht2 α) (hi : Inv2 h) (ve : VEq α) (rve : Option (V
       obtain ⟨_, g2, g3⟩ := find_some_mem h hi ve true v hash r hf
       refine ⟨r, g2, g3, by rw [remove_eq h ve rve v hash r hf], (remove_state h hi ve rve v hash r hf hd).2⟩
 
+/-- non-vacuity (audit): at `auH16` (4 of 16, `Distinct` holds): removing the stored value 4 (hash 19) shrinks the table to 8 and
+    removes exactly that record; removing the absent value 9 changes nothing -/
+example : ∃ r, r.1 = 19 ∧ auVe true 4 r.2 = true ∧ (auH16.remove auVe none 4 19).1 = .ok none ∧
+    auH16.toList ~ r :: (auH16.remove auVe none 4 19).2.toList :=
+  (ht_remove_spec auH16 auH16_rel.inv auVe none 4 19 (by unfold Distinct; decide)).2 ⟨(19, 4), by decide, rfl, by decide⟩
+
+example : (auH16.remove auVe none 4 19).2.size = 8 ∧ (auH16.remove auVe none 4 19).2.toList = [(3, 1), (35, 6), (11, 3)] := by decide
+
+example : auH16.remove auVe none 9 3 = (.notfound, auH16) :=
+  (ht_remove_spec auH16 auH16_rel.inv auVe none 9 3 (by unfold Distinct; decide)).1 (by decide)
+
 /-- Enlarge / shrink preserve the contents: `abs (resize h) = abs h` as multisets, for unchecked re-insertion always, for
 checked re-insertion when no two records are equal for the callback. -/
 theorem ht_resize_preserves_contents (h : Ht2 α) (ve : VEq α) (check : Bool) (newSize : Nat) (hn : 0 < newSize)
     (hd : check = true → Distinct ve h.toList) :
     (h.resizeTo ve check newSize).toList ~ h.toList ∧ Inv2 (h.resizeTo ve check newSize) :=
   ⟨resizeTo_toList h ve check newSize hn hd, resizeTo_inv h ve check newSize hn⟩
+
+/-- non-vacuity (audit): checked enlargement of `auH` (one chain of five) to 16 and to 32 buckets: the chain splits over buckets
+    3, 11, 19 -/
+example : (auH.resizeTo auVe true 32).toList ~ auH.toList ∧ Inv2 (auH.resizeTo auVe true 32) :=
+  ht_resize_preserves_contents auH auVe true 32 (by decide) (fun _ => by unfold Distinct; decide)
+
+example : (auH.resizeTo auVe true 32).bucket 3 = [(3, 1), (3, 2), (3, 5)] ∧ (auH.resizeTo auVe true 32).bucket 11 = [(11, 3)] ∧
+    (auH.resizeTo auVe true 32).bucket 19 = [(19, 4)] := by decide
 
 /-- The hypothesis is needed: `lyht_resize` re-inserts with the duplicate check whenever the triggering call was a
 checked insert or any remove, so duplicates stored through `lyht_insert_no_check` are silently dropped by the next
@@ -201,6 +331,12 @@ theorem ht_resize_preserves_contents_fails :
   intro hall
   have := (hall ⟨8, 2, [[(0, 1), (0, 1)], [], [], [], [], [], [], []]⟩ (fun _ a b => a == b) 4 (by decide)).length_eq
   revert this; decide
+
+/-- non-vacuity (audit): the scenario the docstring describes, through the API: four unchecked inserts of one value into a
+    table of 16 with shrinking enabled, then one `remove` — 3 of 16 = 18 % shrinks with the duplicate check and ONE record is left
+    (the witness of the theorem above applies `resizeTo` directly to two copies) -/
+example : (((List.range 4).foldl (fun (h : Ht2 Nat) _ => (h.insert auVe none false false 1 0).2) (Ht2.new 16 2)).remove auVe none 1 0).2.toList =
+    [(0, 1)] := by decide
 
 /-- **Refinement for every history** (keyed use: the callback is one equivalence relation, inserts are checked, resizing
 enabled): whatever sequence of `insert`/`remove`/`find` is applied, with whatever hashes (collisions included), the
@@ -212,6 +348,54 @@ theorem ht_refines_spec (ve : VEq α) (e : α → α → Bool) (he : IsEquiv ve 
     Inv2 (h.run ve ops).2 ∧ Load (h.run ve ops).2 := by
   obtain ⟨h1, h2⟩ := run_spec he ops hr
   exact ⟨h1, h2.perm, h2.inv, h2.load⟩
+
+/-- non-vacuity (audit): the theorem at the history of the example below (collisions, `LY_EEXIST`, enlargement, removals) from
+    the fresh table, and continued from the populated table `auH16` (hypothesis `Rel` at a non-empty state) -/
+example : ((Ht2.new 8 1 : Ht2 Nat).run auVe
+      [.ins 1 3, .ins 2 3, .ins 1 3, .ins 3 11, .ins 4 19, .ins 5 3, .ins 6 3, .rem 2 3, .find 2 3, .find 6 3, .rem 9 9]).1 =
+    (LyHt.specRun (fun a b => a == b) []
+      [.ins 1 3, .ins 2 3, .ins 1 3, .ins 3 11, .ins 4 19, .ins 5 3, .ins 6 3, .rem 2 3, .find 2 3, .find 6 3, .rem 9 9]).1 :=
+  (ht_refines_spec auVe _ auVe_equiv _ _ [] (auNew_rel auVe 8)).1
+
+example : (auH16.run auVe [.rem 4 19, .ins 1 3, .find 3 11, .rem 1 3, .rem 3 11, .find 6 35]).1 =
+    [.ok none, .exist 1, .ok (some 3), .ok none, .ok none, .ok (some 6)] ∧
+    Inv2 (auH16.run auVe [.rem 4 19, .ins 1 3, .find 3 11, .rem 1 3, .rem 3 11, .find 6 35]).2 :=
+  ⟨by decide, (ht_refines_spec auVe _ auVe_equiv [.rem 4 19, .ins 1 3, .find 3 11, .rem 1 3, .rem 3 11, .find 6 35] _ _ auH16_rel).2.2.1⟩
+
+/-- non-vacuity (audit): a coarser equivalence (numbers equal modulo 10: distinct representatives of one class) also meets
+    `IsEquiv`; inserting 17 under the hash of the stored 7 reports `LY_EEXIST` with the STORED representative -/
+example : ((Ht2.new 8 1 : Ht2 Nat).run (fun _ a b => a % 10 == b % 10) [.ins 7 3, .ins 17 3, .ins 17 4, .find 27 3, .rem 37 3, .find 7 3]).1 =
+    (LyHt.specRun (fun a b => a % 10 == b % 10) [] [.ins 7 3, .ins 17 3, .ins 17 4, .find 27 3, .rem 37 3, .find 7 3]).1 ∧
+    ((Ht2.new 8 1 : Ht2 Nat).run (fun _ a b => a % 10 == b % 10) [.ins 7 3, .ins 17 3, .ins 17 4, .find 27 3, .rem 37 3, .find 7 3]).1 =
+    [.ok (some 7), .exist 7, .ok (some 17), .ok (some 7), .ok none, .notfound] :=
+  ⟨(ht_refines_spec (fun _ a b => a % 10 == b % 10) (fun a b => a % 10 == b % 10)
+      ⟨fun _ _ _ => rfl, fun a => by simp, fun a b h => by simp only [beq_iff_eq] at *; omega,
+       fun a b c h1 h2 => by simp only [beq_iff_eq] at *; omega⟩ _ _ [] (auNew_rel _ 8)).1, by decide⟩
+
+-- AUDIT: scope of `ht_refines_spec` (by design, stated in the docstring as "keyed use"; recorded here so that nobody reads it
+-- as a statement about the dictionary): hypothesis `IsEquiv` (the callback ignores `mod` and is an equivalence relation) is
+-- met by callbacks such as pointer / key equality (XPath set hash, LYB sibling tables, pattern tables) but by NEITHER callback
+-- of the dictionary — `lydict_resize_val_eq` (`resizeEq`) depends on `mod`, `lydict_val_eq` (`valEq len`) is not reflexive
+-- (a string of another length is not "equal" to itself) — and not by `lyd_hash_table_val_equal` (pointer equality for
+-- `mod = 1`, value equality for `mod = 0`).  For those uses the per-operation theorems above (`ht_inv_preserved`, `ht_find_iff`,
+-- `ht_insert_exists`, `ht_insert_adds`, `ht_remove_spec`, which hold for every callback) apply, and the dictionary has its
+-- own refinement theorems below (`dict_refcount_spec*`).  No repair needed.
+theorem ht_refines_spec_vacuous_for_dict_callbacks (e : DRec → DRec → Bool) :
+    ¬ IsEquiv resizeEq e ∧ ∀ len, ¬ IsEquiv (valEq len) e := by
+  constructor
+  · intro h
+    have h1 := h.ind true ⟨[1], 0, false⟩ ⟨[1], 0, true⟩
+    have h2 := h.ind false ⟨[1], 0, false⟩ ⟨[1], 0, true⟩
+    rw [← h2] at h1
+    revert h1; decide
+  · intro len h
+    have h1 := h.ind true ⟨List.replicate (len + 1) 1, 0, true⟩ ⟨List.replicate (len + 1) 1, 0, true⟩
+    rw [h.refl] at h1
+    have h2 : ((List.replicate (len + 1) (1 : UInt8) ++ [0]).getD len 1 == 0) = false := by
+      rw [List.getD_eq_getElem?_getD, List.getElem?_append_left (by simp)]
+      simp
+    simp only [valEq, h2, Bool.and_false] at h1
+    cases h1
 
 /-- a fresh resizable table is related to the empty set -/
 theorem ht_new_rel (ve : VEq α) (size : Nat) : Rel ve (Ht2.new size 1 : Ht2 α) [] := by
@@ -233,6 +417,31 @@ example : ((Ht2.new 8 1 : Ht2 Nat).run (fun _ a b => a == b)
 /-- `lydict_init` gives an empty dictionary satisfying the invariant. -/
 theorem dict_init_spec (H : Bytes → UInt32) (n : Nat) : DInv H (Dict.init n) ∧ refs (Dict.init n) = fun _ => 0 :=
   ⟨init_inv H n, init_refs n⟩
+
+/-! ### audit support: decision procedures for the history hypotheses (so that `decide` discharges them on concrete
+histories; used only by the `non-vacuity (audit)` examples) -/
+
+instance auOpWfDec (m : SMap) : (o : DOp) → Decidable (OpWf m o)
+  | .ins v len zc _ => inferInstanceAs (Decidable ((0 : UInt8) ∉ v ∧ len ≤ v.length ∧ (zc = true → len = v.length)))
+  | .dup v alias => inferInstanceAs (Decidable (alias = true → 0 < m v))
+  | .rem _ => isTrue trivial
+
+instance auNoPrefDec (H : Bytes → UInt32) : (o : DOp) → Decidable (OpNoPrefixCollision H o)
+  | .ins v len _ _ => inferInstanceAs (Decidable (len = v.length ∨ H (v.take len) ≠ H v))
+  | .dup _ _ => isTrue trivial
+  | .rem _ => isTrue trivial
+
+def auAllOpsDec (P : SMap → DOp → Prop) (dp : ∀ m o, Decidable (P m o)) : (m : SMap) → (ops : List DOp) → Decidable (AllOps P m ops)
+  | _, [] => isTrue trivial
+  | m, o :: os => @instDecidableAnd _ _ (dp m o) (auAllOpsDec P dp (Dict.specStep m o).2 os)
+
+instance (m : SMap) (ops : List DOp) : Decidable (AllOps OpWf m ops) := auAllOpsDec OpWf (fun m o => auOpWfDec m o) m ops
+
+instance (m : SMap) (ops : List DOp) : Decidable (RemovesMatched m ops) :=
+  auAllOpsDec _ (fun m o => match o with
+    | .rem v => inferInstanceAs (Decidable (0 < m v))
+    | .ins .. => isTrue trivial
+    | .dup .. => isTrue trivial) m ops
 
 /-- **`dict_refcount_spec`** (partial, see `_fails`): for every hash function `H`, every dictionary state and every
 history of `lydict_insert` / `lydict_insert_zc` / `lydict_dup` / `lydict_remove` calls that respect the API contract,
@@ -263,9 +472,24 @@ example : AllOps OpWf (fun _ => 0) exOps ∧ (∀ o ∈ exOps, OpNoPrefixCollisi
     simp only [exOps, List.mem_cons, List.not_mem_nil, or_false] at ho
     rcases ho with h | h | h | h | h | h | h | h | h | h | h <;> subst h <;> simp [OpNoPrefixCollision, exH]
 
+/-- non-vacuity (audit): the theorem itself at `exOps` / `exH` (all 1-byte strings collide on all 32 bits; dup through a
+    dictionary pointer; zero-copy insert of a held string; the last remove is unmatched → `LY_ENOTFOUND` on both sides) -/
+example : ((Dict.init 8).run exH exOps).1 = (Dict.specRun (fun _ => 0) exOps).1 ∧ DInv exH ((Dict.init 8).run exH exOps).2 := by
+  obtain ⟨hi, hr⟩ := dict_init_spec exH 8
+  have := dict_refcount_spec_partial exH (Dict.init 8) hi exOps (by rw [hr]; decide) (by decide)
+  rw [hr] at this
+  exact ⟨this.1, this.2.2⟩
+
 /-- a history uses whole strings only: `lydict_insert(ctx, s, 0)` / `strlen`, `lydict_insert_zc`, `lydict_dup`, `lydict_remove` -/
 def WholeStrings (ops : List DOp) : Prop :=
   ∀ o ∈ ops, match o with | .ins v len _ _ => len = v.length | _ => True
+
+/-- audit support: `WholeStrings` is decidable -/
+instance (ops : List DOp) : Decidable (WholeStrings ops) :=
+  @List.decidableBAll _ _ (fun o => match o with
+    | .ins v len _ _ => inferInstanceAs (Decidable (len = v.length))
+    | .dup .. => isTrue trivial
+    | .rem .. => isTrue trivial) ops
 
 /-- **`dict_refcount_spec`** at full strength for the whole-string API: no hypothesis on the hash function at all. -/
 theorem dict_refcount_spec (H : Bytes → UInt32) (d : Dict) (hd : DInv H d) (ops : List DOp)
@@ -284,6 +508,30 @@ example : WholeStrings [.ins [97] 1 false false, .ins [98, 99] 2 true false, .du
   intro o ho
   simp only [List.mem_cons, List.not_mem_nil, or_false] at ho
   rcases ho with h | h | h | h <;> subst h <;> simp
+
+/-! ### audit support: non-empty dictionary states (`DInv` obtained from `dict_refcount_spec` itself) -/
+
+/-- five strings `a` (two references), `b`, `c`, `dd`, `e` in a dictionary of 8 records: the next new string enlarges -/
+def auD5 : Dict := ((Dict.init 8).run exH
+  [.ins [97] 1 false false, .ins [98] 1 false false, .ins [99] 1 false false, .ins [100, 100] 2 false false,
+   .ins [101] 1 true false, .dup [97] true]).2
+
+/-- non-vacuity (audit): `dict_refcount_spec` instantiated at that history (hypotheses `AllOps OpWf`, `WholeStrings` by `decide`) -/
+theorem auD5_inv : DInv exH auD5 := by
+  obtain ⟨hi, hr⟩ := dict_init_spec exH 8
+  exact (dict_refcount_spec exH (Dict.init 8) hi _ (by rw [hr]; decide) (by decide)).2.2
+
+example : auD5.ht.size = 8 ∧ auD5.content = [([100, 100], 1), ([97], 2), ([98], 1), ([99], 1), ([101], 1)] := by decide
+
+/-- non-vacuity (audit): `dict_refcount_spec_partial` from the NON-empty state `auD5`, with a by-length insert of a proper
+    prefix (`"fg"` of the buffer `"fgh"`, no hash collision between the two under `exH`) that is the 6th record and enlarges the
+    table — the F110 situation without the collision — then a dup of it, removes down to a deletion and an absent remove -/
+example : (auD5.run exH [.ins [102, 103, 104] 2 false false, .dup [102, 103] true, .rem [97], .rem [97], .rem [97], .rem [102, 103]]).1 =
+      [.ok [102, 103], .ok [102, 103], .done, .done, .notfound, .done] ∧
+    (auD5.run exH [.ins [102, 103, 104] 2 false false, .dup [102, 103] true, .rem [97], .rem [97], .rem [97], .rem [102, 103]]).2.ht.size = 16 ∧
+    DInv exH (auD5.run exH [.ins [102, 103, 104] 2 false false, .dup [102, 103] true, .rem [97], .rem [97], .rem [97], .rem [102, 103]]).2 :=
+  ⟨by decide, by decide,
+   (dict_refcount_spec_partial exH auD5 auD5_inv _ (by decide) (by decide)).2.2⟩
 
 /-- The full statement — by-length inserts of any prefix, any hash function — is **false** (§6 F110): with a hash that
 makes the prefix `"ab"` collide with the buffer `"abX"` held by the dictionary, the `lydict_insert(ctx, "abX", 2)` that
@@ -307,6 +555,20 @@ theorem dict_refcount_spec_fixed (H : Bytes → UInt32) (d : Dict) (hd : DInv H 
     DInv H (d.runF H ops).2 := by
   obtain ⟨h1, h2, h3⟩ := runF_spec H ops d hd hw
   exact ⟨h2, h3, h1⟩
+
+/-- non-vacuity (audit): the theorem at the witness of `dict_refcount_spec_fails` (constant hash, prefix `"ab"` of `"abX"`) -/
+example : ((Dict.init 8).runF (fun _ => 0)
+    [.ins [97, 98, 88] 3 false false, .ins [99] 1 false false, .ins [100] 1 false false, .ins [101] 1 false false,
+     .ins [102] 1 false false, .ins [97, 98, 88] 2 false false]).1 =
+    (Dict.specRun (fun _ => 0)
+    [.ins [97, 98, 88] 3 false false, .ins [99] 1 false false, .ins [100] 1 false false, .ins [101] 1 false false,
+     .ins [102] 1 false false, .ins [97, 98, 88] 2 false false]).1 := by
+  obtain ⟨hi, hr⟩ := dict_init_spec (fun _ => 0) 8
+  have := dict_refcount_spec_fixed (fun _ => 0) (Dict.init 8) hi
+    [.ins [97, 98, 88] 3 false false, .ins [99] 1 false false, .ins [100] 1 false false, .ins [101] 1 false false,
+     .ins [102] 1 false false, .ins [97, 98, 88] 2 false false] (by rw [hr]; decide)
+  rw [hr] at this
+  exact this.1
 
 /-- the witness of `dict_refcount_spec_fails` is handled correctly by the repaired function -/
 example : ((Dict.init 8).runF (fun _ => 0)
@@ -333,6 +595,34 @@ theorem dict_insert_remove_cancel (H : Bytes → UInt32) (d : Dict) (hd : DInv H
   · rw [if_neg ht, h3 t, if_neg ht]
 
 example : (0 : UInt8) ∉ ([100, 101] : Bytes) := by decide
+
+/-- non-vacuity (audit): at `auD5` (5 of 8) the insert of a new string enlarges the table to 16; the remove deletes the record
+    (no shrink: 5 of 16): the reference map is back, the table is not -/
+example : refs ((auD5.insert exH [122, 122] 2 false false).2.remove exH [122, 122]).2 = refs auD5 ∧
+    (auD5.insert exH [122, 122] 2 false false).2.ht.size = 16 ∧
+    ((auD5.insert exH [122, 122] 2 false false).2.remove exH [122, 122]).2.ht.size = 16 :=
+  ⟨(dict_insert_remove_cancel exH auD5 auD5_inv [122, 122] (by decide) false false).1, by decide, by decide⟩
+
+/-- three strings in a dictionary of 16 records with shrinking enabled: a fourth string makes 25 %, its removal 18 % -/
+def auD16 : Dict := (Dict.run exH ⟨Ht2.new 16 2⟩ [.ins [97] 1 false false, .ins [98] 1 false false, .ins [99, 99] 2 true false]).2
+
+/-- non-vacuity (audit): `dict_refcount_spec` from a start state other than `Dict.init` (`DInv` of the empty table of 16 by hand) -/
+theorem auD16_inv : DInv exH auD16 := by
+  have hi : DInv exH ⟨Ht2.new 16 2⟩ :=
+    ⟨(ht_new_inv 16 2 (by decide)).1, (ht_new_inv 16 2 (by decide)).2, by decide, by
+      have ht : (⟨Ht2.new 16 2⟩ : Dict).ht.toList = [] := by decide
+      rw [ht]
+      exact ⟨by simp, by simp, by simp, by simp, by simp⟩⟩
+  have hr : refs ⟨Ht2.new 16 2⟩ = fun _ => 0 := by funext s; rfl
+  exact (dict_refcount_spec exH _ hi _ (by rw [hr]; decide) (by decide)).2.2
+
+/-- non-vacuity (audit): at `auD16` the removal of the just inserted string shrinks the table 16 → 8 (re-insertion with
+    `lydict_resize_val_eq`), and the reference map is still the one before the insert; zero-copy variant -/
+example : refs ((auD16.insert exH [122] 1 true false).2.remove exH [122]).2 = refs auD16 ∧
+    (auD16.insert exH [122] 1 true false).2.ht.size = 16 ∧
+    ((auD16.insert exH [122] 1 true false).2.remove exH [122]).2.ht.size = 8 ∧
+    ((auD16.insert exH [122] 1 true false).2.remove exH [122]).2.content = [([99, 99], 1), ([97], 1), ([98], 1)] :=
+  ⟨(dict_insert_remove_cancel exH auD16 auD16_inv [122] (by decide) true false).1, by decide, by decide, by decide⟩
 
 /-- **`dict_balanced_empty`**: start from the empty dictionary; after ANY history (contract respected) in which every
 reference taken by an insert/dup is released by a remove and no remove is unmatched, the dictionary has no record left:
@@ -371,5 +661,27 @@ example : RemovesMatched (fun _ => 0) exOps.dropLast ∧ (∀ s, adds s exOps.dr
         have e2 : ¬ ([98] : Bytes) = s := fun h => h2 h.symm
         have e3 : ¬ ([99] : Bytes) = s := fun h => h3 h.symm
         simp [exOps, adds, rems, e1, e2, e3]
+
+/-- non-vacuity (audit): the theorem itself at that history — every hypothesis discharged, conclusion instantiated -/
+example : ((Dict.init 8).run exH exOps.dropLast).2.content = [] ∧ ((Dict.init 8).run exH exOps.dropLast).2.ht.used = 0 := by
+  refine dict_balanced_empty exH 8 exOps.dropLast (by decide) (by decide) (by decide) ?_
+  intro s
+  by_cases h1 : s = [97]
+  · subst h1; decide
+  · by_cases h2 : s = [98]
+    · subst h2; decide
+    · by_cases h3 : s = [99]
+      · subst h3; decide
+      · have e1 : ¬ ([97] : Bytes) = s := fun h => h1 h.symm
+        have e2 : ¬ ([98] : Bytes) = s := fun h => h2 h.symm
+        have e3 : ¬ ([99] : Bytes) = s := fun h => h3 h.symm
+        simp [exOps, adds, rems, e1, e2, e3]
+
+/-- non-vacuity (audit): `RemovesMatched` and the balance hypothesis are real restrictions — the full `exOps` (with its
+    unmatched last remove) violates the first, `exOps` without its last two removes the second (and a string is left) -/
+example : ¬ RemovesMatched (fun _ => 0) exOps := by decide
+
+example : adds [97] (exOps.take 9) ≠ rems [97] (exOps.take 9) ∧ ((Dict.init 8).run exH (exOps.take 9)).2.content = [([97], 1)] := by
+  decide
 
 end LyModel.Props.C17
